@@ -1,3 +1,2 @@
-import BioCantor.Driver.Main
 import BioCantor.Driver.Transcript
-def main : IO Unit := BioCantor.Driver.runModel BioCantor.Driver.Transcript.ops
+def main : IO Unit := BioCantor.Driver.Transcript.main
